@@ -336,12 +336,13 @@ class Part(object):
             divs_per_beat = self.inv_beat_map(
                 1 + self.beat_map(0)
             )  # find the divs per beat in the first measure
-            if (
-                measures[0][1] - measures[0][0]
-                < self.time_signature_map(0)[0] * divs_per_beat
-            ):
+            # the beat map counts musical beats when they are in use
+            beats_per_bar = self.time_signature_map(0)[
+                2 if self._use_musical_beat else 0
+            ]
+            if measures[0][1] - measures[0][0] < beats_per_bar * divs_per_beat:
                 measures[0][0] = np.round(
-                    measures[0][1] - self.time_signature_map(0)[0] * divs_per_beat
+                    measures[0][1] - beats_per_bar * divs_per_beat
                 )
 
         inter_function = interp1d(
@@ -395,12 +396,13 @@ class Part(object):
             divs_per_beat = self.inv_beat_map(
                 1 + self.beat_map(0)
             )  # find the divs per beat in the first measure
-            if (
-                measures[0][1] - measures[0][0]
-                < self.time_signature_map(0)[0] * divs_per_beat
-            ):
+            # the beat map counts musical beats when they are in use
+            beats_per_bar = self.time_signature_map(0)[
+                2 if self._use_musical_beat else 0
+            ]
+            if measures[0][1] - measures[0][0] < beats_per_bar * divs_per_beat:
                 measures[0][0] = np.round(
-                    measures[0][1] - self.time_signature_map(0)[0] * divs_per_beat
+                    measures[0][1] - beats_per_bar * divs_per_beat
                 )
 
         inter_function = interp1d(
